@@ -8,6 +8,8 @@ hand-written meaning of what `harness/translate/tlbparsers_blk.py` emits besides
                                references (each walked by `Rd.dictWalk` of Model/TlbRdTx.lean).  The dict is returned in walk order
                                (= ascending keys); the slice is left after the label and the leaf value / the two references.
 
+  * `Rd.loadHashmapS n rd sp`     the same with `key_deserializer=lambda src: Builder().store_bits(src).to_slice().load_int(n)`: signed keys
+  * `Rd.refSlice`                 `lambda src: src.load_ref().begin_parse()`: a Slice value `.con "slice" (.cell c)` over the next reference
   * `Rd.tuple`                    a Python tuple → `.con "tuple" (.record [("0", a), ("1", b)])`
   * `Rd.augWalk x y`              `parse_aug` of boc/hashmap/parse.py: label (HmLabel reader), then a leaf reads `extra:Y` THEN `value:X`
                                   from the same cell (`extras.append(y(cs)); ret[prefix] = x(cs)`), a fork walks its two references and
@@ -15,6 +17,10 @@ hand-written meaning of what `harness/translate/tlbparsers_blk.py` emits besides
   * `Rd.loadHashmapAugE n x y sp` `Slice.load_hashmap_aug_e(n, x, y)`: `self.to_cell()` for a special slice; Maybe bit; root reference
                                   (`None` for a non-ordinary root), then the top-level `extra:Y` is read and dropped; an empty
                                   dictionary gives `({}, [y(self)])`
+
+  * `Rd.loadShardHashes leaf`     `deserialize_shard_hashes` of tlb/utils.py (a function with index loops over lists of slices — a HAND
+                                  MODEL, its source text is pinned by the translator): `load_dict(32, BinTree.deserialize(ref))`, then
+                                  every leaf slice is replaced by `ShardDescr.deserialize(leaf)` / `None` for a pruned cell
 
 Core Lean only (the driver links this file).
 -/
@@ -48,6 +54,22 @@ def loadHashmap (n : Nat) (rd : Frag → R) (sp : Bool) (s : Frag) : R :=
   else match dictWalkInline rd n s with
     | some (kv, s') => some (dict kv, s')
     | none => none
+
+/-- a dict whose keys were converted by `Builder().store_bits(src).to_slice().load_int(n)` (signed), in insertion order -/
+def dictS (kv : List (Bits × Val)) : Val := .con "dict" (.record (kv.map fun p => (toString (sintOfBits p.1), p.2)))
+
+/-- `Slice.load_hashmap(n, key_deserializer=<signed n-bit int>, value_deserializer=rd)` -/
+def loadHashmapS (n : Nat) (rd : Frag → R) (sp : Bool) (s : Frag) : R :=
+  if sp then some (.unit, s)
+  else match dictWalkInline rd n s with
+    | some (kv, s') => some (dictS kv, s')
+    | none => none
+
+/-- the value reader `lambda src: src.load_ref().begin_parse()`: a Slice over the next referenced cell -/
+def refSlice (s : Frag) : R :=
+  match loadRef s with
+  | some (c, s') => some (.con "slice" (.cell c), s')
+  | none => none
 
 /-! ### augmented dictionaries -/
 
@@ -104,5 +126,43 @@ def loadHashmapAugE (n : Nat) (x y : Frag → R) (sp : Bool) (s : Frag) : R :=
         | some (e, s2) => some (tuple [dict [], list [e]], s2)
         | none => none
     | none => none
+
+/-! ### `deserialize_shard_hashes` (tlb/utils.py) with `BinTree.deserialize` (tlb/block.py) -/
+
+/-- `BinTree.deserialize` on the cell `c`, followed by the leaf loop of `deserialize_shard_hashes`: the leaves left to right; a
+    leaf of an ordinary cell is parsed by `leaf` from the slice after its `bt_leaf$0` bit (what the leaf parser leaves is dropped),
+    a special (pruned) cell gives `None`.  `fuel` bounds the depth (the spec's `BinTree` has 64). -/
+def binTreeWalk (leaf : Bool → Frag → R) : Nat → Cell → Option (List Val)
+  | 0, _ => none
+  | fuel+1, c =>
+    if c.exotic then some [.unit]
+    else
+      match loadBit ⟨c.bits, c.refs⟩ with
+      | some (b, s1) =>
+        if truthy b then
+          match s1.refs with
+          | l :: r :: _ =>
+            match binTreeWalk leaf fuel l, binTreeWalk leaf fuel r with
+            | some x, some y => some (x ++ y)
+            | _, _ => none
+          | _ => none
+        else
+          match leaf false s1 with
+          | some (v, _) => some [v]
+          | none => none
+      | none => none
+
+/-- the value reader of the shard-hashes dictionary: `BinTree.deserialize(src.load_ref().begin_parse())`, leaves parsed -/
+def binTreeRef (leaf : Bool → Frag → R) (s : Frag) : R :=
+  match loadRef s with
+  | some (c, s') =>
+    match binTreeWalk leaf 64 c with
+    | some xs => some (obj "BinTree" [("list", list xs)], s')
+    | none => none
+  | none => none
+
+/-- `deserialize_shard_hashes(slice)`: `load_dict(32, …)` of BinTrees, every leaf parsed by `leaf` (= `ShardDescr.deserialize`);
+    `None` for an empty dictionary -/
+def loadShardHashes (leaf : Bool → Frag → R) (s : Frag) : R := loadDict 32 (binTreeRef leaf) s
 
 end TonVerif.Tlb.Rd
